@@ -10,8 +10,12 @@ from vf.core import Suite, coq_list, coq_Z
 from vf.gen import pick_weighted
 
 ID = "C04"
-THEOREMS = ["C04_decode_git", "C04_git_decode", "C04_canon_is_git", "C04_decode_long_mode_refuted", "C04_enc_dec", "C04_written_clean_partial",
-            "C04_written_clean_refuted", "C04_written_gitmodules_refuted", "C04_sort_is_git_order", "C04_never_refuses", "C04_never_refuses_refuted"]
+THEOREMS = ["C04_decode_git", "C04_git_decode", "C04_git_decode_exact", "C04_canon_is_git", "C04_decode_long_mode_refuted", "C04_enc_dec",
+            "C04_hfs_dot_eq_git", "C04_hfs_dot_sound", "C04_hfs_dot_malformed_refuted", "C04_ntfs_dotgit_eq_git", "C04_ntfs_dot_eq_git",
+            "C04_has_dotgit_refused", "C04_dotgitmodules_eq", "C04_dotgitmodules_symlink",
+            "C04_written_clean_structural", "C04_written_clean_partial", "C04_written_clean_refuted",
+            "C04_written_gitmodules_malformed_refuted", "C04_written_gitmodules_refuted",
+            "C04_sort_is_git_order", "C04_never_refuses", "C04_never_refuses_refuted"]
 MODEL_FILES = ["TreeObj.v"]
 MODELLED = ("plumbing/object/tree.go: Tree.Decode (filemode.FromBytes, canonicalTreeMode), Tree.Encode, Tree.Validate, "
             "treeEntrySortName / TreeEntrySorter; internal/pathutil: ValidTreePath, IsDotGitName, IsHFSDot (UTF-8 view of "
